@@ -19,15 +19,88 @@ Definition rib_unit (lb : bool) (render : input -> out -> option osm) (flt : opt
   rib_site (filter_fn lb FRib fp_in flt) (fun fp => render (fp_in fp))
            (fun r fp => rib_insert_payload r (fp_pay fp)) r ps.
 
+(* ---- the BMP messages a router can send (RFC 7854 section 4): the six the session state machine model knows
+   and Route Mirroring (type 6), which the state machine ignores exactly as it ignores a Statistics Report
+   (Dumping / Updating: `_ => mk_other_result()`; Initiating / Terminated: invalid) ---- *)
+Inductive bmsg :=
+| BMsg (m : msg)
+| BMirror (p : pph).
+
+Definition bmsg_sm (b : bmsg) : msg :=
+  match b with BMsg m => m | BMirror p => MStats p end.
+
+(* the per-peer header: every message type but Initiation and Termination has one *)
+Definition msg_pph (m : msg) : option pph :=
+  match m with MStats p | MPeerUp p _ | MPeerDown p | MRoute p _ => Some p | MInit | MTerm => None end.
+Definition bmsg_pph (b : bmsg) : option pph :=
+  match b with BMsg m => msg_pph m | BMirror p => Some p end.
+
+Definition msg_kind (m : msg) : N :=
+  match m with MRoute _ _ => K_RM | MStats _ => K_STATS | MPeerDown _ => K_PEERDOWN | MPeerUp _ _ => K_PEERUP
+             | MInit => K_INIT | MTerm => K_TERM end.
+Definition bmsg_kind (b : bmsg) : N :=
+  match b with BMsg m => msg_kind m | BMirror _ => K_MIRROR end.
+
+(* ---- Provenance (roto_runtime/types.rs): where an item came from. A script can read peer_asn; the ingress id
+   goes onto the output messages; peer_ip is carried along. ---- *)
+Record prov := MkProv { pv_ingress : N; pv_ip : N; pv_asn : N }.
+
+(* bmp-in, read_from_router: one Provenance per TCP connection - the router's ingress id and address, AS0 *)
+Definition conn_prov (rid addr : N) : prov := MkProv rid addr 0.
+(* bgp-in, Processor::process: Provenance::for_bgp(session ingress id, negotiated remote address and AS), per UPDATE *)
+Definition sess_prov (id addr asn : N) : prov := MkProv id addr asn.
+
+(* bmp-in, process_msg: THE PROVENANCE THE FILTER IS HANDED. The connection's provenance, with peer address and
+   peer AS overwritten from the per-peer header of the message if the message has one. *)
+Definition bmp_prov (c : prov) (b : bmsg) : prov :=
+  match bmsg_pph b with
+  | Some p => MkProv (pv_ingress c) (ph_addr p) (ph_asn p)
+  | None => c
+  end.
+
 (* RouterHandler::process_msg: the state machine step, and the routing update
    (if the step produced one) sent to the gate *)
-Definition bmp_process (rid : N) (st : reg * sm) (m : msg * input) : (reg * sm) * list update :=
-  let '(r', s', o) := sm_step st.1 rid st.2 m.1 in
+Definition bmp_process (rid : N) (st : reg * sm) (m : bmsg * input) : (reg * sm) * list update :=
+  let '(r', s', o) := sm_step st.1 rid st.2 (bmsg_sm m.1) in
   ((r', s'), match o with OUpdate u => [u] | _ => [] end).
 
 Definition bmp_unit (lb : bool) (render : input -> out -> option osm) (flt : option prog) (rid : N)
-    (st : reg * sm) (m : msg * input) : (reg * sm) * list (down update osm) :=
+    (st : reg * sm) (m : bmsg * input) : (reg * sm) * list (down update osm) :=
   msg_site (filter_fn lb FBmp snd flt) (fun mi => render mi.2) (bmp_process rid) st m.
+
+(* ---- the same with the per-router counters of the connection handler (bmp_tcp_in/metrics.rs RouterMetrics):
+   a message is counted as received (by RFC 7854 type) before the filter is called, as processed when the filter
+   let it through to the state machine, as invalid when the state machine then refused it ---- *)
+Record bcnt := MkCnt { bc_recv : N -> N; bc_proc : N; bc_inval : N }.
+Definition cnt0 : bcnt := MkCnt (fun _ => 0%N) 0 0.
+Definition cnt_recv (k : N) (c : bcnt) : bcnt :=
+  MkCnt (fun j => if N.eqb j k then N.succ (bc_recv c j) else bc_recv c j) (bc_proc c) (bc_inval c).
+Definition cnt_step (o : outcome) (c : bcnt) : bcnt :=
+  MkCnt (bc_recv c) (N.succ (bc_proc c)) (match o with OInvalid => N.succ (bc_inval c) | _ => bc_inval c end).
+
+Definition bmp_process_cnt (rid : N) (st : (reg * sm) * bcnt) (m : bmsg * input) : ((reg * sm) * bcnt) * list update :=
+  let '(r', s', o) := sm_step st.1.1 rid st.1.2 (bmsg_sm m.1) in
+  (((r', s'), cnt_step o st.2), match o with OUpdate u => [u] | _ => [] end).
+
+Definition bmp_unit_cnt (lb : bool) (render : input -> out -> option osm) (flt : option prog) (rid : N)
+    (st : (reg * sm) * bcnt) (m : bmsg * input) : ((reg * sm) * bcnt) * list (down update osm) :=
+  msg_site (filter_fn lb FBmp snd flt) (fun mi => render mi.2) (bmp_process_cnt rid)
+           (st.1, cnt_recv (bmsg_kind m.1) st.2) m.
+
+(* a whole connection *)
+Fixpoint bmp_run_cnt (lb : bool) (render : input -> out -> option osm) (flt : option prog) (rid : N)
+    (st : (reg * sm) * bcnt) (ms : list (bmsg * input)) : ((reg * sm) * bcnt) * list (down update osm) :=
+  match ms with
+  | [] => (st, [])
+  | m :: ms' =>
+      let '(st1, ds) := bmp_unit_cnt lb render flt rid st m in
+      let '(st2, ds') := bmp_run_cnt lb render flt rid st1 ms' in
+      (st2, ds ++ ds')
+  end.
+
+(* does the filter (none = accept) let this message through? *)
+Definition bmp_lets_through (lb : bool) (flt : option prog) (m : bmsg * input) : bool :=
+  match flt with Some p => (eval_gen lb FBmp p m.2).1 | None => true end.
 
 (* bgp-in: Processor::process, UpdateMessage arm: the explosion of the UPDATE
    into one Update::Bulk is the only effect (stateless) *)
@@ -39,26 +112,26 @@ Definition bgp_unit (lb : bool) (render : input -> out -> option osm) (flt : opt
 
 (* ---- what the filter at each call site is handed (the input of FilterLang) ---- *)
 
-(* rib-in-pre: the route; a withdrawn route carries no attributes *)
-Definition rib_view (k : rkey) (a : option fattrs) : input :=
-  MkIn K_RM (k_pfx k) a 0 0 None 0 (k_mui k) false.
+(* rib-in-pre: the route only (the filter has no provenance argument); the ingress id on the output messages is
+   the one of the provenance carried in the payload's context (RouteContext::Fresh and ::Mrt alike). A withdrawn
+   route carries no attributes *)
+Inductive pctx := CtxFresh | CtxMrt.     (* RouteContext::Reprocess is never built *)
+Definition ctx_ingress (c : pctx) (k : rkey) : N :=
+  match c with CtxFresh => k_mui k | CtxMrt => k_mui k end.
+Definition rib_view_ctx (c : pctx) (k : rkey) (a : option fattrs) : input :=
+  MkIn K_RM (k_pfx k) a 0 0 None 0 (ctx_ingress c k) false.
+Definition rib_view (k : rkey) (a : option fattrs) : input := rib_view_ctx CtxFresh k a.
 
-(* bgp-in: the UPDATE and the session's provenance *)
-Definition bgp_view (id peer_asn : N) (u : upd) (a : fattrs) : input :=
-  MkIn K_RM 0 (match n_ann u with 0%N => None | _ => Some a end) (n_ann u) (n_wd u) None peer_asn id false.
+(* bgp-in: the UPDATE - whatever it carries - and the session's provenance; [legacy]: the peer did not send the
+   4-octet AS number capability, its AS_PATHs are written with 2-octet AS numbers *)
+Definition bgp_view (pv : prov) (u : upd) (a : fattrs) (legacy : bool) : input :=
+  MkIn K_RM 0 (match n_ann u with 0%N => None | _ => Some a end) (n_ann u) (n_wd u) None (pv_asn pv) (pv_ingress pv) legacy.
 
-(* bmp-in: the message; process_msg overwrites the peer AS of the connection
-   level provenance (AS0) with the one of the per-peer header, if any; the
-   ingress id on output messages is the router connection's *)
-Definition msg_pph (m : msg) : option pph :=
-  match m with MStats p | MPeerUp p _ | MPeerDown p | MRoute p _ => Some p | MInit | MTerm => None end.
-Definition msg_kind (m : msg) : N :=
-  match m with MRoute _ _ => K_RM | MStats _ => K_STATS | MPeerDown _ => K_PEERDOWN | MPeerUp _ _ => K_PEERUP
-             | MInit => K_INIT | MTerm => K_TERM end.
-Definition bmp_view (rid : N) (m : msg) (a : fattrs) (legacy : bool) : input :=
-  let u := match m with MRoute _ (Some u) => Some u | _ => None end in
+(* bmp-in: the message and [bmp_prov]; the ingress id on output messages is the router connection's *)
+Definition bmp_view (c : prov) (b : bmsg) (a : fattrs) (legacy : bool) : input :=
+  let u := match b with BMsg (MRoute _ (Some u)) => Some u | _ => None end in
   let na := match u with Some u => n_ann u | None => 0%N end in
   let nw := match u with Some u => n_wd u | None => 0%N end in
-  MkIn (msg_kind m) 0 (match na with 0%N => None | _ => Some a end) na nw
-       (option_map ph_asn (msg_pph m))
-       (match msg_pph m with Some p => ph_asn p | None => 0%N end) rid legacy.
+  MkIn (bmsg_kind b) 0 (match na with 0%N => None | _ => Some a end) na nw
+       (option_map ph_asn (bmsg_pph b))
+       (pv_asn (bmp_prov c b)) (pv_ingress c) legacy.
